@@ -183,8 +183,11 @@ CHECKS = {
              "never reads t_samples out of range given the regenerated conjunct order, the diffusion event selected by Gillespie and "
              "every tau-leap Poisson call belong to a slot with a neighbour, std::poisson_distribution is only constructed with a positive "
              "mean (regenerated guards, count of constructions), the allocation state machine never double-frees or uses a freed object "
-             "(C10's invariant), and every vector[index] of the engine sources (162 occurrences, regenerated) has a registered bounded "
-             "index form. Oracle = the property's observation point: the working tree's engine compiled with -D_GLIBCXX_ASSERTIONS "
+             "(C10's invariant), every vector[index] of the engine sources (162 occurrences, regenerated) has a registered bounded "
+             "index form, and — assembled — engine_never_faults: on a checked-access interpreter of Init (MkVec, transposition, "
+             "BuildMeshNeighbors, SetNeighbors, Build_mesh_kr/kd), the six Iterate()s, the sampler, the exports and the lifecycle, "
+             "with every subscript through the generated index formulas and the Poisson precondition, no call fails for any valid "
+             "arguments, any draws and any call history (grid and graph). Oracle = the property's observation point: the working tree's engine compiled with -D_GLIBCXX_ASSERTIONS "
              "and with ASan+UBSan, driven through the Python API over degenerate shapes, all policies / modes, coarse steps, repeated "
              "output fetches, double finalize, calls on a released engine; plain and hardened builds must agree bitwise.",
         note="Lean kernel + {propext, Classical.choice, Quot.sound}; translator; the compiled program's memory behaviour is observed on "
